@@ -145,6 +145,10 @@ def family(name: str, tier: str = "quick", seed: int = 0) -> List[dict]:
             add("nameless", f"{kind}-in-nameless", Q("forall", U, None, None, Q(kind, T, None, NT(U), A(NT(T)), None), None))
             add("nameless", f"{kind}-predicate", Q(kind, U, None, None, Q("exists", T, None, None, Pred("inside", (NT(T), NT(U))), None), None))
     add("nameless", "explicit-in-start", Q("exists", T, None, V("start"), A(NT(T)), None))
+    add("nameless", "two-nameless-quantifiers-of-one-type", And(Q("exists", T, None, None, A(NT(T)), None), Q("exists", T, None, None, Bq(NT(T)), None)),
+        cls="nameless:two-nameless-quantifiers-of-one-type")
+    add("nameless", "two-nameless-quantifiers-of-one-type-or", Or(Q("forall", T, None, None, A(NT(T)), None), Q("forall", T, None, None, Bq(NT(T)), None)),
+        cls="nameless:two-nameless-quantifiers-of-one-type")
 
     # ---- 3. free nonterminals -------------------------------------------------------
     add("free", "atom", A(NT(T)))
@@ -191,6 +195,8 @@ def family(name: str, tier: str = "quick", seed: int = 0) -> List[dict]:
             add("xpath-child", "nameless", Q("exists", p, None, None, eq(xp(NT(p), [(c, None)]), lc), None))
             add("xpath-child", "nameless-and-free-same-type", And(Q("exists", p, None, None, eq(xp(NT(p), [(c, None)]), lc), None), len_cmp(NT(p), ">", 0)),
                 cls="xpath-child:nameless-quantifier-and-free-nonterminal-of-one-type", combo=False)
+            add("xpath-child", "two-nameless-quantifiers", And(Q("exists", p, None, None, len_cmp(NT(p), ">", 0), None), Q("exists", p, None, None, eq(xp(NT(p), [(c, None)]), lc), None)),
+                cls="xpath-child:two-nameless-quantifiers-of-one-type", combo=False)
             add("xpath-child", "in-predicate", Q("forall", p, "v", None, Pred("inside", (xp(V("v"), [(c, None)]), V("v"))), None))
             add("xpath-child", "free-in-predicate", Pred("direct_child", (xp(NT(p), [(c, None)]), NT(p))), cls="xpath:free-head-also-used-alone", combo=False)
             add("xpath-child", "and-whole", Q("exists", p, "v", None, And(eq(xp(V("v"), [(c, None)]), lc), len_cmp(V("v"), ">", 2)), None))
@@ -234,6 +240,10 @@ def family(name: str, tier: str = "quick", seed: int = 0) -> List[dict]:
     if name in ("rightrec", "num", "nullable", "multichar") or tier == "thorough":
         x = V("x")
         wrapq = lambda atom: Q("forall", T, "x", None, atom, None)
+        # str.to.int only where every value of the variable is a numeral (the property
+        # excludes str.to.int on non-numerals); elsewhere str.len takes its place
+        numeral = bool(prof.lits[T]) and all(v.isascii() and v.isdigit() for v in prof.lits[T])
+        to_int = "str.to.int" if numeral else "str.len"
         slen = lambda st: App("str.len", (x,), st)
         atoms = []
         for op in ("=", ">=", "<=", ">", "<"):
@@ -253,7 +263,7 @@ def family(name: str, tier: str = "quick", seed: int = 0) -> List[dict]:
             atoms.append((f"{op}:prefix", Smt(App(op, args, "prefix"))))
         for op, args, res in [
             ("str.at", (x, I(0)), S(a[:1])), ("str.substr", (x, I(0), I(1)), S(a[:1])), ("str.replace", (x, S(a[:1]), S("Z")), S("Z" + a[1:])),
-            ("str.indexof", (x, S(a[:1]), I(0)), I(0)), ("str.to_code", (x,), I(ord(a[:1] or "a"))), ("str.to.int", (x,), I(1)),
+            ("str.indexof", (x, S(a[:1]), I(0)), I(0)), ("str.to_code", (x,), I(ord(a[:1] or "a"))), (to_int, (x,), I(1)),
             ("abs", (App("-", (App("str.len", (x,), "prefix"), I(3)), "infix"),), I(2)),
             ("str.len", (App("str.replace_all", (x, S(a[:1]), S("")), "prefix"),), I(0)),
         ]:
@@ -263,8 +273,9 @@ def family(name: str, tier: str = "quick", seed: int = 0) -> List[dict]:
         for op in ("re.union", "re.inter", "re.diff"):
             atoms.append((f"{op}:prefix", Smt(App("str.in_re", (x, App(op, (App("str.to_re", (S(a),), "prefix"), App("str.to_re", (S(b),), "prefix")), "prefix")), "prefix"))))
         atoms.append(("re.range:prefix", Smt(App("str.in_re", (x, App("re.range", (S("a"), S("m")), "prefix")), "prefix"))))
-        atoms.append(("negative:right", Smt(App(">", (App("str.to.int", (x,), "prefix"), I(-1)), "infix"))))
-        atoms.append(("negative:left", Smt(App("<", (I(-1), App("str.to.int", (x,), "prefix")), "infix"))))
+        atoms.append(("negative:right", Smt(App(">", (App(to_int, (x,), "prefix"), I(-1)), "infix"))))
+        atoms.append(("negative:left", Smt(App("<", (I(-1), App(to_int, (x,), "prefix")), "infix"))))
+        atoms.append(("negative:changelog-example", Smt(App("<", (App(to_int, (x,), "prefix"), I(-1)), "infix"))))
         atoms.append(("negative:plus", Smt(App("=", (App("+", (App("str.len", (x,), "prefix"), I(-1)), "infix"), I(0)), "infix"))))
         atoms.append(("negative:prefix-arg", Smt(App("=", (App("abs", (I(-3),), "prefix"), App("+", (App("str.len", (x,), "prefix"), I(2)), "infix")), "infix"))))
         atoms.append(("negative:sexpr-arg", Smt(App("=", (App("+", (App("str.len", (x,), "sexpr"), I(-1)), "sexpr"), I(0)), "sexpr"))))
@@ -334,11 +345,12 @@ def family(name: str, tier: str = "quick", seed: int = 0) -> List[dict]:
     #   * a negated operand with a descendant axis -> xpath-desc:under-existential-quantifier
     #   * a free nonterminal of one operand whose type is quantified namelessly or is
     #     an XPath step / head in the other -> free:free-and-nameless-*, xpath-child:compared-with-*
+    #   * nameless quantifiers over one type in both operands -> nameless:two-nameless-*, xpath-child:two-nameless-*
     from bounded.c08_desugar import Fresh, all_terms, name_quantifiers, names_used
 
     def type_sets(ast):
         named = name_quantifiers(ast, Fresh(names_used(ast)))
-        free_t, other_t = set(), set()
+        free_t, other_t, nameless_t = set(), set(), set()
         for t in all_terms(named):
             if isinstance(t, NT):
                 free_t.add(t.type)
@@ -353,6 +365,7 @@ def family(name: str, tier: str = "quick", seed: int = 0) -> List[dict]:
             if isinstance(g, Q):
                 if g.name is None:
                     other_t.add(g.type)
+                    nameless_t.add(g.type)
                 walk(g.body)
             elif isinstance(g, QI):
                 walk(g.body)
@@ -363,7 +376,7 @@ def family(name: str, tier: str = "quick", seed: int = 0) -> List[dict]:
                 walk(g.right)
 
         walk(ast)
-        return free_t, other_t
+        return free_t, other_t, nameless_t
 
     def flags(ast):
         named = name_quantifiers(ast, Fresh(names_used(ast)))
@@ -397,8 +410,8 @@ def family(name: str, tier: str = "quick", seed: int = 0) -> List[dict]:
         left_negated = (node is Implies) != negated if node in (Implies,) else negated
         if (f1[2] and (left_negated or shape != "disjunctive")) or (f2[2] and (negated or shape != "disjunctive")):
             continue
-        (fr1, ot1), (fr2, ot2) = type_sets(c1["ast"]), type_sets(c2["ast"])
-        if (fr1 & ot2) or (fr2 & ot1) or (fr1 & ot1) or (fr2 & ot2):
+        (fr1, ot1, nl1), (fr2, ot2, nl2) = type_sets(c1["ast"]), type_sets(c2["ast"])
+        if (fr1 & ot2) or (fr2 & ot1) or (fr1 & ot1) or (fr2 & ot2) or (nl1 & nl2):
             continue
         ast = node(c1["ast"], rename_bound(c2["ast"], "2"))
         if negated:
